@@ -984,8 +984,15 @@ func callBuiltin(caller *frame, fn *ssa.Builtin, args []value) value {
 		case *sym, opaqueStr:
 			panic(unsupported{"append of an atom/opaque string to bytes"})
 		}
-		// append([]T, ...[]T) []T
-		return append(args[0].([]value), args[1].([]value)...)
+		// append([]T, ...[]T) []T  (struct/array elements have value semantics: copy them)
+		src := args[1].([]value)
+		dst := args[0].([]value)
+		cl := make([]value, len(src))
+		for k, e := range src {
+			cl[k] = cloneVal(e)
+		}
+		// one host append: like Go, a reallocation happens before any element is written
+		return append(dst, cl...)
 
 	case "copy": // copy([]T, []T) int or copy([]byte, string) int
 		src := args[1]
@@ -997,7 +1004,18 @@ func callBuiltin(caller *frame, fn *ssa.Builtin, args []value) value {
 		case *sym, opaqueStr:
 			panic(unsupported{"copy from an atom/opaque string"})
 		}
-		return copy(args[0].([]value), src.([]value))
+		dst, srcs := args[0].([]value), src.([]value)
+		n := len(dst)
+		if len(srcs) < n {
+			n = len(srcs)
+		}
+		// memmove semantics with value copies (elements may be structs/arrays)
+		tmp := make([]value, n)
+		for k := 0; k < n; k++ {
+			tmp[k] = cloneVal(srcs[k])
+		}
+		copy(dst, tmp)
+		return n
 
 	case "close": // close(chan T)
 		ech, _ := args[0].(*echan)
@@ -1170,6 +1188,32 @@ func (i *interpreter) rangeIter(x value, t types.Type) iter {
 		panic(unsupported{"range over an atom/opaque string"})
 	}
 	panic(fmt.Sprintf("cannot range over %T", x))
+}
+
+// cloneVal copies a value with Go value semantics: structs and arrays are
+// copied recursively, everything else (scalars, pointers, slices, maps,
+// interfaces holding them) is shared.
+func cloneVal(v value) value {
+	switch v := v.(type) {
+	case structure:
+		c := make(structure, len(v))
+		for k, e := range v {
+			c[k] = cloneVal(e)
+		}
+		return c
+	case array:
+		c := make(array, len(v))
+		for k, e := range v {
+			c[k] = cloneVal(e)
+		}
+		return c
+	case iface:
+		switch v.v.(type) {
+		case structure, array:
+			return iface{t: v.t, v: cloneVal(v.v)}
+		}
+	}
+	return v
 }
 
 // widen widens a basic typed value x to the widest type of its
